@@ -138,13 +138,14 @@ def run_flow(case):
     old = _signal.signal(_signal.SIGALRM, _alarm)
     _signal.alarm(10)
     exc = None
+    nodes.KI_ENABLED = True         # an argument -6 is a Ctrl-C landing inside that node's body (local runs only)
     try:
         if case["suppress"]:
             ret = wf.run(raise_run_exceptions=False)
         else:
             ret = wf.run()
         verdict = "ok"
-    except nodes.UserExc as e:
+    except (nodes.UserExc, nodes.UserInterrupt) as e:
         verdict, exc = ["UserExc", e.tag], e
     except ReadinessError as e:
         verdict, exc = ["Readiness"], e
@@ -153,6 +154,7 @@ def run_flow(case):
     except _Timeout:
         return "timeout"
     finally:
+        nodes.KI_ENABLED = False
         _signal.alarm(0)
         _signal.signal(_signal.SIGALRM, old)
     return {"verdict": verdict, "chain": nodes.exc_kind(exc) if exc is not None else [],
@@ -463,8 +465,15 @@ def model_view(case, obs):
     return flow_view(case, obs) if case["fam"] == "flow" else obs
 
 
+def _has_interrupt(case):
+    return any(inp["init"] == -6 for nd in case["nodes"] for inp in nd["ins"])
+
+
 def model_term(case):
-    return flow_term(case) if case["fam"] == "flow" else None
+    if case["fam"] != "flow" or _has_interrupt(case):
+        # a KeyboardInterrupt is not collected by the composite's loop (it leaves at once): oracle only
+        return None
+    return flow_term(case)
 
 
 def oracle(case, obs):
@@ -484,8 +493,6 @@ def known(case, obs, verdict):
         return "S27-retriggered-failed-node-overwrites-cause"
     if case["fam"] == "dag" and isinstance(obs, dict):
         sig = verdict.split(":")[0]
-        if sig in ("swallowed", "parent-not-failed", "cause-lost") and _exec_failure(case, obs):
-            return "S6-executor-failure-swallowed"
         if sig == "left-running" and _start_failure_with_jobs_out(case, obs):
             return "S26-failure-leaves-executor-siblings-running"
     return None
